@@ -566,6 +566,20 @@ def mounted(fs, fake_clock=True):
     ]
     if fake_clock:
         patches.append((_datetime_mod, "datetime", _FakeDatetime))
+    # names bound by `from os import replace` etc. inside nifty modules would
+    # bypass the module-attribute seam: re-bind those as well
+    import sys
+    real2new = {}
+    for m, a, f in patches:
+        if m in (os, builtins, io):
+            real2new[id(getattr(m, a))] = (getattr(m, a), f)
+    for name, mod in sorted(sys.modules.items()):
+        if not name.startswith("nifty") or mod is None:
+            continue
+        for a, obj in list(vars(mod).items()):
+            hit = real2new.get(id(obj))
+            if hit is not None and hit[0] is obj:
+                patches.append((mod, a, hit[1]))
     saved = [(m, a, getattr(m, a)) for m, a, _ in patches]
     _ACTIVE.append(fs)
     try:
